@@ -841,7 +841,8 @@ class NoTraceOracle(Observer):
                     return
         if share0 != share1:
             # lingering links again: sharing is physical, so it must not change at all
-            if w.violation("C13", "C13.snapshot_sharing", f"step {w.nstep}: statement ({kind}) raised {out.exc} but memory sharing between tensors changed", tag=f"C13.snapshot_sharing/{kind}"):
+            feat = "/stale_family" if (ev.get("tgt") in self.lingering) else ""  # the target was left over from a cleared family (C09's root cause)
+            if w.violation("C13", "C13.snapshot_sharing", f"step {w.nstep}: statement ({kind}) raised {out.exc} but memory sharing between tensors changed", tag=f"C13.snapshot_sharing/{kind}{feat}"):
                 return
         w.probe("c13.failed_statement_checked")
         w.probe("c13.failed." + kind)
